@@ -464,6 +464,24 @@ w("namespaces/shadowing.tsx", hdr + "\n".join([
     "const after = defineComponent((p: Props) => {});",
 ]), '{"resolveType":true,"optimize":true}')
 
+
+# (after S42) a reference that NOTHING lexically visible binds, while several same-named declarations sit in
+# disjoint nested scopes: whatever the pass does with it must not depend on context numbering
+w("namespaces/unbound.tsx", hdr + "\n".join([
+    "declare global { interface Props { g: string } type Ev = { (e: 'g'): void }; type Size = 'global' }",
+    "function one() { interface Props { one: number } type Ev = { (e: 'one'): void }; type Size = 1; return defineComponent((p: Props, c: SetupContext<Ev>) => {}); }",
+    "function two() { interface Props { two: boolean; size: Size } type Size = 2; }",
+    "const three = () => { interface Props { three: Date } type Ev = (e: 'three') => void; };",
+    "{ interface Props { block: symbol } type Size = 'block'; }",
+    "class K { m() { interface Props { inMethod: string } type Ev = { inMethod: [] }; } }",
+    "namespace N { export interface Props { inNs: string } export type Size = 'ns'; }",
+    "if (cond) { type Props = { inIf: bigint }; }",
+    "const C = defineComponent((p: Props, c: SetupContext<Ev>) => {});",
+    "const D = defineComponent((p: Pick<Props, 'g' | 'one' | 'two'> & Partial<Props>) => {});",
+    "const E = defineComponent((p: { a: Props['one']; b: Props['g']; s: Size }) => {});",
+    "const F = defineComponent((p: Props & { extra: Size }) => {});",
+    "interface Bound extends Props { own: string }", "const G = defineComponent((p: Bound) => {});",
+]), '{"resolveType":true,"optimize":true}')
 # ---- J. more distinct names than any bounded table holds: 2600 of each kind in one module, the first ones used
 # again at the end (a cache that evicts, wraps around or overflows does so within this one file)
 N = 2600
